@@ -941,6 +941,22 @@ func (c *glCtx) stmt0(s ast.Stmt) string {
 			return res
 		}
 	case *ast.RangeStmt:
+		if s.Tok == token.DEFINE && c.typeOf(s.X) == "string" {
+			// for i, r := range <string>: on ASCII text byte offsets and rune indices coincide; `asciiIndices` leaves the
+			// embedding (.bad) on anything else
+			ki, okk := s.Key.(*ast.Ident)
+			vi, okv := s.Value.(*ast.Ident)
+			if okk && okv && ki.Name != "_" && vi.Name != "_" {
+				coll := c.expr(s.X)
+				savedSw := c.inSwitch
+				c.inSwitch = 0
+				defer func() { c.inSwitch = savedSw }()
+				c.types[ki.Name] = "int"
+				c.types[vi.Name] = "rune"
+				body := seqs([]string{fmt.Sprintf("(.bind %s (.call2 \"index\" %s (.var %s)))", leanStr(vi.Name), coll, leanStr(ki.Name)), c.block(s.Body.List)})
+				return fmt.Sprintf("(.forIdx %s (.call1 \"asciiIndices\" %s)\n    %s)", leanStr(ki.Name), coll, body)
+			}
+		}
 		if s.Tok == token.DEFINE || (s.Key == nil && s.Value == nil) {
 			coll := c.expr(s.X)
 			et := strings.TrimPrefix(c.typeOf(s.X), "[]")
@@ -1370,6 +1386,7 @@ func emitValidators(p *pkg, out string) {
 	}
 	// the comparison MergeFiles groups batches by
 	q.translate(p, "BatchHeader.Equal")
+	q.translate(p, "CalculateCheckDigit")
 	for _, k := range q.order {
 		lf.pf("def %s : Prog :=\n  %s\n\n", glName(k), q.done[k])
 	}
